@@ -30,6 +30,8 @@ struct Slot {
     dropped: bool,
     panicked: Option<String>,
     polls: u64,
+    /// scheduled by the canonical schedule only when no normal task is ready (a slow peer)
+    low: bool,
 }
 
 #[derive(Debug, Clone, PartialEq, Eq)]
@@ -75,6 +77,7 @@ impl Exec {
             dropped: false,
             panicked: None,
             polls: 0,
+            low: false,
         });
         self.slots.len() - 1
     }
@@ -119,17 +122,25 @@ impl Exec {
     /// ascending id.
     pub fn ready(&self) -> Vec<TaskId> {
         let mut v = Vec::new();
-        if let Some(l) = self.last {
-            if self.is_ready(l) {
-                v.push(l);
+        for low in [false, true] {
+            if let Some(l) = self.last {
+                if self.slots[l].low == low && self.is_ready(l) {
+                    v.push(l);
+                }
             }
-        }
-        for id in 0..self.slots.len() {
-            if Some(id) != self.last && self.is_ready(id) {
-                v.push(id);
+            for id in 0..self.slots.len() {
+                if Some(id) != self.last && self.slots[id].low == low && self.is_ready(id) {
+                    v.push(id);
+                }
             }
         }
         v
+    }
+
+    /// Mark a task as slow: the canonical schedule runs it only when nothing else is ready
+    /// (deviations can still pick it at any point).
+    pub fn set_low_priority(&mut self, id: TaskId) {
+        self.slots[id].low = true;
     }
 
     /// Ready tasks in plain ascending-id order (for engines that want a fixed priority order).
